@@ -9,6 +9,8 @@
 // of all 98 lines x 38 projections / conditions (NULL list elements); a column called input; timestamp comparisons by instant with a text literal on either side; 6 functions whose arguments are columns, over a 4-row file.
 // Also: REAL comparison flags for every pair of 12 REAL values (signed zeros, adjacent doubles); CASE conditions without a
 // value; 1-based array subscripts from a column and as literals (0, negative, beyond the end, 64-bit ends).
+// Also: the documented functions (least .. array_prepend) on 4 rows with reference values, EXTRACT /
+// date_trunc / make_timestamp on one timestamp.
 include!("verif_grid_common.rs");
 include!("verif_grid_qcommon.rs");
 use serde_json::{json, Value as J};
@@ -135,6 +137,45 @@ fn verif_grid() {
                     Outcome::Lines(l, _) => if l == vec![format!("{{\"x\":{}}}", want)] { Ok(()) } else { Err(format!("{} with xs = [10, 20, 30] printed {:?}, expected {}", q1, l, want)) },
                     other => Err(format!("{}: {:?}", q1, other)) });
             }
+        }
+    }
+    // the documented functions (README: least, greatest, abs, sqrt, pow, length, upper, lower, array_*, make_timestamp,
+    // date_trunc, EXTRACT) on ordinary arguments, taken from columns
+    {
+        let def = "CREATE TABLE t(line = '^a=(-?[0-9]+) b=(-?[0-9]+) x=(\\\\S+) y=(\\\\S+) s=(\\\\w*) arr=([0-9]+),([0-9]+),([0-9]+)$', line[1] => a INT, line[2] => b INT, line[3] => x REAL, line[4] => y REAL, line[5] => s TEXT, line[6], line[7], line[8] => xs INT[]);";
+        let rows: [(i64, i64, f64, f64, &str, [i64; 3]); 4] = [(3, -7, 2.25, 4.0, "MiXed", [1, 2, 2]), (-5, -5, 9.0, 0.5, "abc", [7, 7, 7]), (0, 12, 0.0, 3.0, "", [3, 1, 2]), (100, 99, 1e10, 2.0, "Z9", [0, 0, 1])];
+        for (ri, (a, b, x, y, sv, arr)) in rows.iter().enumerate() {
+            let line = format!("a={} b={} x={:?} y={:?} s={} arr={},{},{}", a, b, x, y, sv, arr[0], arr[1], arr[2]);
+            let uniq = { let mut v = arr.to_vec(); v.sort(); v.dedup(); v.len() };
+            let exprs: Vec<(&str, J)> = vec![
+                ("least(a, b)", json!(a.min(b))), ("greatest(a, b)", json!(a.max(b))), ("least(x, y)", json!(x.min(*y))), ("greatest(x, y)", json!(x.max(*y))),
+                ("abs(a)", json!(a.abs())), ("abs(b)", json!(b.abs())), ("abs(x - y)", json!((x - y).abs())), ("sqrt(x)", json!(x.sqrt())), ("pow(y, 2.0)", json!(y.powf(2.0))), ("pow(x, 0.5)", json!(x.powf(0.5))),
+                ("length(s)", json!(sv.len())), ("upper(s)", json!(sv.to_uppercase())), ("lower(s)", json!(sv.to_lowercase())),
+                ("array_length(xs)", json!(3)), ("array_append(xs, a)", json!([arr[0], arr[1], arr[2], *a])), ("array_prepend(b, xs)", json!([*b, arr[0], arr[1], arr[2]])),
+                ("array_cat(xs, xs)", json!([arr[0], arr[1], arr[2], arr[0], arr[1], arr[2]])), ("array_length(array_unique(xs))", json!(uniq)),
+                ("xs[1] + xs[3]", json!(arr[0] + arr[2])), ("array_append(xs, 4)[4]", json!(4)),
+            ];
+            for (ei, (expr, want)) in exprs.into_iter().enumerate() {
+                let line = line.clone();
+                g.case(&format!("function-r{}-e{}", ri, ei), move || match q(def, &format!("SELECT {} AS v FROM t", expr), &[&line]) {
+                    Outcome::Lines(l, _) => { let got: J = serde_json::from_str(&l[0]).unwrap();
+                        let same = { let (p, q): (&J, &J) = (&got["v"], &want); match (p, q) { (J::Number(p), J::Number(q)) => p.as_f64() == q.as_f64(), _ => *p == *q } };
+                        if l.len() == 1 && same { Ok(()) } else { Err(format!("{} on the row {:?} printed {:?}; as documented it is {}", expr, line, l, want)) } }
+                    other => Err(format!("{} on the row {:?}: {:?}", expr, line, other)) });
+            }
+        }
+        // timestamps: make_timestamp, EXTRACT, date_trunc
+        let tdef = "CREATE TABLE t(line = '^ts=(.+)$', line[1] => ts TIMESTAMP);";
+        for (i, (expr, want)) in [("EXTRACT(YEAR FROM ts)", json!(2021)), ("EXTRACT(MONTH FROM ts)", json!(3)), ("EXTRACT(DAY FROM ts)", json!(9)), ("EXTRACT(HOUR FROM ts)", json!(14)), ("EXTRACT(MINUTE FROM ts)", json!(25)),
+                                  ("EXTRACT(SECOND FROM ts)", json!(36)), ("date_trunc('hour', ts)", json!("2021-03-09 14:00:00.000")), ("date_trunc('day', ts)", json!("2021-03-09 00:00:00.000")),
+                                  ("date_trunc('minute', ts)", json!("2021-03-09 14:25:00.000")), ("date_trunc('month', ts)", json!("2021-03-01 00:00:00.000")), ("date_trunc('year', ts)", json!("2021-01-01 00:00:00.000")),
+                                  ("make_timestamp(2021, 3, 9, 14, 25, 36, 0)", json!("2021-03-09 14:25:36.000")), ("make_timestamp(2021, 3, 9, 14, 25, 36, 0) = ts", json!(true)),
+                                  ("make_timestamp(2021, 3, 9, 14, 25, 36, 500) > ts", json!(true)), ("ts - ts", json!("00:00:00.000"))].into_iter().enumerate() {
+            g.case(&format!("timestamp-function-{}", i), move || match q(tdef, &format!("SELECT {} AS v FROM t", expr), &["ts=2021-03-09 14:25:36"]) {
+                Outcome::Lines(l, _) => { let got: J = serde_json::from_str(&l[0]).unwrap();
+                    let same = { let (p, q): (&J, &J) = (&got["v"], &want); match (p, q) { (J::Number(p), J::Number(q)) => p.as_f64() == q.as_f64(), _ => *p == *q } };
+                    if same { Ok(()) } else { Err(format!("{} on 2021-03-09 14:25:36 printed {:?}; as documented it is {}", expr, l, want)) } }
+                other => Err(format!("{}: {:?}", expr, other)) });
         }
     }
     // `input` denotes the raw line, also when the table has a column of that name
